@@ -75,10 +75,10 @@ class BaseTranslateFilter:
                 for k in self.re_vars.findall(message_text)
             }
 
-        # Missing variables get replaced by the current `Undefined` type and we're
-        # converting all values to a string, so a KeyError or a ValueError should
-        # be impossible.
-        return message_text % _vars
+        # Only `%(name)s` placeholders are replaced. Any other percent sign in the
+        # message text is left as it is.
+        text = self.re_vars.sub(lambda match: _vars[match.group(1)], message_text)
+        return Markup(text) if isinstance(message_text, Markup) else text
 
     def _resolve_translations(self, context: RenderContext) -> Translations:
         return cast(
@@ -440,9 +440,9 @@ class NPGetText(BaseTranslateFilter, TranslatableFilter):
 
 
 def _count(val: Any) -> Optional[int]:
-    if val in (None, False, True):
+    if val is None or isinstance(val, bool):
         return None
     try:
         return int(val)
-    except ValueError:
+    except (ValueError, TypeError, OverflowError):
         return None
